@@ -742,6 +742,19 @@ class CompMonotoneRight(Lemma):
         return hyps, lex_le(Comp(a, b).tiers, Comp(a, c).tiers)
 
 
+class CompMonotoneLeft(Lemma):
+    """composition is monotone in its first argument for equal shapes and cut-offs (used by the path-closure lemmas
+    closure_min_step: a shorter prefix gives a path that is not longer): a <= a' implies a + c <= a' + c"""
+    name = "comp_monotone_left"
+    property_ids = ["C08"]
+
+    def statement(self, mk):
+        a, b, c = mk_interval(mk, "a"), mk_interval(mk, "b"), mk_interval(mk, "c")
+        hyps = [wf(a), wf(b), wf(c), same_shape(a, b), a.cutoff == b.cutoff, len_(a.tiers) == c.pre_length,
+                lex_le(a.tiers, b.tiers)]
+        return hyps, lex_le(Comp(a, c).tiers, Comp(b, c).tiers)
+
+
 class TimeOrderTotalStrict(Lemma):
     """A1 for times: '<' on TieredTime (lexicographic, equal lengths) is a strict total order"""
     name = "time_order"
@@ -776,7 +789,7 @@ class TimeVsWorldTime(Lemma):
 
 LEMMAS = [LexFirstDiffBase(), LexFirstDiffStep(), LtIrreflexive(), LtAsymmetric(), LtTransitive(), Trichotomy(),
           DerivedOrderConsistent(), DelayMonotone(), TimeMonotone(), NeverBackwards(), ActionLaw(),
-          CompAssociative(), CompMonotoneRight(), TimeOrderTotalStrict(), TimeVsWorldTime()]
+          CompAssociative(), CompMonotoneRight(), CompMonotoneLeft(), TimeOrderTotalStrict(), TimeVsWorldTime()]
 
 
 # ------------------------------------------------------------------ recorded findings (witness replay)
